@@ -2,15 +2,15 @@
 (* Bounded universe for BuilderMachine.tla (C09, C14).                             *)
 (*                                                                                  *)
 (* A small catalogue of schemas with builder transformations (the veneers whose    *)
-(* effect on an option is part of C09's mechanisms: struct fields as options =     *)
-(* multi-segment paths behind a nullable prefix, array append, map index, options   *)
-(* promoted to constructor arguments).                                              *)
+(* effect on an option is part of C09's mechanisms: struct fields as options /     *)
+(* as arguments = multi-segment paths behind a nullable prefix, array append, map   *)
+(* index, options promoted to constructor arguments).                               *)
 (*                                                                                  *)
 (* Mode = "index" : one state per entry; prints INDEX {id, name, schema, rules,     *)
 (*                  builders (the options the requirement derives), defaults}.      *)
 (* Mode = "cases" : the builder machine itself. State = (entry, language, the call  *)
 (*                  sequence so far, internal object, errs, raised). Every state is *)
-(*                  one CASE {id, lang, seq, obj, errs, raised, fails, consts}: the *)
+(*                  one CASE {id, lang, seq, obj, errs, raised, bad, fails, consts} *)
 (*                  expectation the real generated builders are compared with.      *)
 (*                  Sequences of <= MaxLen option calls; arguments: every           *)
 (*                  expressible value of ArgVals for single calls, a 3-value / a    *)
@@ -18,12 +18,14 @@
 (*                  of 2 / 3 calls.                                                 *)
 (* Mode = "values": C14. One state per (entry, builder type, value): prints VALUE   *)
 (*                  {id, key, v, differs, needed} (against the spec's defaults).    *)
+(* Mode = "pairs" : C14, thorough tier: root values that differ from the base       *)
+(*                  document at TWO members.                                         *)
 EXTENDS BuilderMachine, Json
 
 CONSTANTS Mode, Ids, Fuel, MaxLen, Langs
 
-VARIABLES si, lang, seq, obj, errs, raised, vk, vv
-vars == <<si, lang, seq, obj, errs, raised, vk, vv>>
+VARIABLES si, lang, seq, obj, errs, raised, bad, vk, vv
+vars == <<si, lang, seq, obj, errs, raised, bad, vk, vv>>
 
 (* ------------------------------- catalogue ------------------------------------- *)
 I64   == TInt("int64", NoB, NoB)
@@ -60,6 +62,9 @@ Catalogue == <<
   \* options promoted to constructor arguments (of the root and of a nested builder)
   Entry("ctor", <<RootValid, Kid, Leaf>>,
         <<Rule("ctor", "Root", "", <<"id", "name">>), Rule("ctor", "Kid", "", <<"kid">>)>>),
+  \* struct fields as arguments: one option, several assignments behind one (nullable / non-nullable) prefix
+  Entry("args", <<RootValid, Kid, Leaf>>,
+        <<Rule("args", "Root", "ok", <<"kid", "kname">>), Rule("args", "Root", "req", <<"n", "f">>)>>),
   \* unions: of scalars, discriminated unions of structs, arrays of them
   Entry("union", <<
     Def("Root", TStruct(<<
@@ -135,6 +140,10 @@ ApplyRule(S, r, opts) ==
                 LET st == AsStruct(S, "", o.args[1]).t IN
                 [j \in DOMAIN r.fields |-> Opt(r.fields[j], <<FieldOf(st, r.fields[j]).t>>,
                                                <<Asg(<<r.field, r.fields[j]>>, "direct", 1, 0)>>)]
+           [] r.k = "args" ->
+                LET st == AsStruct(S, "", o.args[1]).t IN
+                <<Opt(o.name, [j \in DOMAIN r.fields |-> FieldOf(st, r.fields[j]).t],
+                      [j \in DOMAIN r.fields |-> Asg(<<r.field, r.fields[j]>>, "direct", j, 0)])>>
            [] r.k = "append" -> <<Opt(o.name, <<ElemType(S, o.args[1])>>, <<Asg(<<r.field>>, "append", 1, 0)>>)>>
            [] r.k = "index"  -> <<Opt(o.name, <<Str, ElemType(S, o.args[1])>>, <<Asg(<<r.field>>, "index", 2, 1)>>)>>])
 RECURSIVE ApplyRules(_, _, _, _)
@@ -187,7 +196,7 @@ HasCtorArgs(i) == BTab[i]["Root"].ctor.args # <<>>
 Marker == NoJ
 InitCases ==
   /\ si \in (Ids \cap DOMAIN Catalogue) /\ lang \in Langs
-  /\ seq = <<>> /\ obj = DTab[si]["Root"] /\ errs = {} /\ raised = <<>>
+  /\ seq = <<>> /\ obj = DTab[si]["Root"] /\ errs = {} /\ raised = <<>> /\ bad = <<>>
   /\ vk = "" /\ vv = Marker
 \* number of OPTION calls made so far (the constructor call, when it has arguments, comes first and is not counted)
 NOpt(s) == IF s # <<>> /\ s[1].o = 0 THEN Len(s) - 1 ELSE Len(s)
@@ -197,7 +206,7 @@ Step(c) ==
   LET b == BTab[si]["Root"]
       r == Call(lang, STab[si], DTab[si], "Root", STab[si]["Root"], b.ctor, b.opts, St(obj, errs), c)
   IN /\ seq' = Append(seq, c)
-     /\ obj' = r.st.obj /\ errs' = r.st.errs /\ raised' = Append(raised, r.raised)
+     /\ obj' = r.st.obj /\ errs' = r.st.errs /\ raised' = Append(raised, r.raised) /\ bad' = Append(bad, r.bad)
 NextCases ==
   /\ Mode = "cases"
   /\ IF seq = <<>> /\ HasCtorArgs(si)
@@ -214,15 +223,31 @@ ValuesOf(S, t) ==
   {x.d : x \in {y \in ({Var(Base(S, t, Fuel), "base", <<>>)} \cup Variants(S, t, Fuel)
                         \cup {Var(Base(S, t, 0), "base", <<>>)} \cup Variants(S, t, 0)) :
                   Accepts(S, t, y.d) /\ Expressible(S, t, y.d)}}
+\* two-place values (Mode "pairs", thorough tier): two one-place variants at DIFFERENT members of the root struct
+FieldIdx(t, n) == CHOOSE i \in DOMAIN t.fields : t.fields[i].n = n
+MergeTop(t, b, x, y) ==
+  LET src(n) == IF n = x.p[1] THEN x.d ELSE IF n = y.p[1] THEN y.d ELSE b
+      inc == SelectSeq(t.fields, LAMBDA f : src(f.n).j = "obj" /\ Has(src(f.n).ps, f.n))
+  IN JObj([i \in DOMAIN inc |-> P(inc[i].n, Get(src(inc[i].n).ps, inc[i].n))])
+PairsOf(S, t) ==
+  LET b  == Base(S, t, Fuel)
+      vs == {x \in Variants(S, t, Fuel) : x.p # <<>> /\ x.f \in {"alt", "base"} /\ x.d.j = "obj"}
+  IN {d \in UNION {{MergeTop(t, b, x, y) : y \in {z \in vs : FieldIdx(t, z.p[1]) > FieldIdx(t, x.p[1])}} : x \in vs} :
+        Accepts(S, t, d) /\ Expressible(S, t, d)}
+InitPairs ==
+  /\ si \in (Ids \cap DOMAIN Catalogue) /\ lang = "go"
+  /\ seq = <<>> /\ obj = Marker /\ errs = {} /\ raised = <<>> /\ bad = <<>>
+  /\ vk = "Root"
+  /\ vv \in PairsOf(STab[si], STab[si]["Root"])
 InitValues ==
   /\ si \in (Ids \cap DOMAIN Catalogue) /\ lang = "go"
-  /\ seq = <<>> /\ obj = Marker /\ errs = {} /\ raised = <<>>
+  /\ seq = <<>> /\ obj = Marker /\ errs = {} /\ raised = <<>> /\ bad = <<>>
   /\ vk \in {d.name : d \in {x \in Range(Catalogue[si].schema.defs) : x.t.k = "struct"}}
   /\ vv \in ValuesOf(STab[si], STab[si][vk])
 InitIndex ==
-  /\ si \in DOMAIN Catalogue /\ lang = "go" /\ seq = <<>> /\ obj = Marker /\ errs = {} /\ raised = <<>> /\ vk = "" /\ vv = Marker
+  /\ si \in DOMAIN Catalogue /\ lang = "go" /\ seq = <<>> /\ obj = Marker /\ errs = {} /\ raised = <<>> /\ bad = <<>> /\ vk = "" /\ vv = Marker
 
-Init == CASE Mode = "index" -> InitIndex [] Mode = "cases" -> InitCases [] Mode = "values" -> InitValues
+Init == CASE Mode = "index" -> InitIndex [] Mode = "cases" -> InitCases [] Mode = "values" -> InitValues [] Mode = "pairs" -> InitPairs
 Next == NextCases
 Spec == Init /\ [][Next]_vars
 
@@ -235,10 +260,10 @@ Emit ==
                                    builders |-> SeqOfSet({BTab[si][k] : k \in DOMAIN BTab[si]}),
                                    defaults |-> SeqOfSet({[key |-> k, obj |-> DTab[si][k]] : k \in DOMAIN DTab[si]})])>>)
     [] Mode = "cases" ->
-         PrintT(<<"CASE", ToJson([id |-> si, lang |-> lang, seq |-> seq, obj |-> obj, errs |-> SeqOfSet(errs), raised |-> raised,
+         PrintT(<<"CASE", ToJson([id |-> si, lang |-> lang, seq |-> seq, obj |-> obj, errs |-> SeqOfSet(errs), raised |-> raised, bad |-> bad,
                                   fails |-> BuildFails(lang, STab[si], STab[si]["Root"], St(obj, errs)),
                                   consts |-> ConstsOK(STab[si], STab[si]["Root"], obj)])>>)
-    [] Mode = "values" ->
+    [] Mode \in {"values", "pairs"} ->
          PrintT(<<"VALUE", ToJson([id |-> si, key |-> vk, v |-> vv,
                                    differs |-> SeqOfSet(Differs(STab[si][vk], DTab[si], vk, vv)),
                                    needed |-> SeqOfSet({BTab[si][vk].opts[i].name : i \in NeededOpts(DTab[si], vk, BTab[si][vk], vv)})])>>)
